@@ -106,6 +106,7 @@ type FuncSpec struct {
 	Params      []string // optional explicit parameter names
 	Requires    []Clause
 	Ensures     []Clause
+	ExitAssert  []Clause // asserted at every return with the function's locals in scope; not exported to callers
 	Modifies    []string // heap key patterns "Type.field", "*"
 	HasModifies bool
 	Ghost       []GhostAssign
@@ -520,7 +521,7 @@ func (p *parser) parsePostfix(x Expr) Expr {
 var stmtKeywords = map[string]bool{
 	"func": true, "iface": true, "loop": true, "pure": true, "ghost": true, "lemma": true,
 	"requires": true, "ensures": true, "modifies": true, "invariant": true, "decreases": true,
-	"transparent": true, "trusted": true, "opaque": true, "axiom": true, "params": true,
+	"exitassert": true, "transparent": true, "trusted": true, "opaque": true, "axiom": true, "params": true,
 }
 
 // ParseSpec parses the contract text of one file.
@@ -619,6 +620,11 @@ func ParseSpec(pkg, file, text string) (sf *SpecFile, err error) {
 					panic("ensures outside func")
 				}
 				curF.Ensures = append(curF.Ensures, clause())
+			case "exitassert":
+				if curF == nil {
+					panic("exitassert outside func")
+				}
+				curF.ExitAssert = append(curF.ExitAssert, clause())
 			case "invariant":
 				if curL == nil {
 					panic("invariant outside loop")
